@@ -2,8 +2,8 @@ SPECIFICATION Spec
 CONSTANTS
   LB = 8
   LBits = 3
-  N = 96
-  NS = 6
+  N = 48
+  NS = 4
 INVARIANT NatOK
 INVARIANT ScOK
 CHECK_DEADLOCK FALSE
